@@ -77,7 +77,7 @@ PROPS.update({
                    "whenever the input document is deeply valid, the nodes of a closed slice are, and the slice wrapped in copies of the insertion point's ancestors (prepare_slice_for_replace, trusted) is a deeply valid tree -- or raise / fail; "
                    "StepResult.from_replace turns every ReplaceError into a failed result (failed xor doc); ReplaceStep.apply / ReplaceAroundStep.apply fail when a structure step would overwrite content and when the gap is not flat; content_between terminates and indexes safely.",
                    "that the document a step returns is valid at every node (oracle validity) for all eight step kinds, directly and through JSON, with well-formed and malformed (out-of-range, out-of-order) positions, nested / open wrapper slices; replace_outer / replace_two_way / replace_three_way recursion is outside the proved set (trusted contracts listed in the evidence).",
-                   assumptions=("A1", "A4", "A5", "A6", "A9", "A10", "Z3", "PYVC"), min_obligations=800, shards={"ReplaceAroundStep.apply": 4, "insert_into": 4, "add_range": 16, "replace_outer": 8, "replace_two_way": 2, "Fragment.cut": 8, "Fragment.append": 4, "replace_three_way": 8},
+                   assumptions=("A1", "A4", "A5", "A6", "A9", "A10", "Z3", "PYVC"), min_obligations=800, shards={"ReplaceAroundStep.apply": 4, "insert_into": 4, "add_range": 16, "add_node": 4, "replace_outer": 8, "replace_two_way": 2, "Fragment.cut": 8, "Fragment.append": 4, "replace_three_way": 8},
                    bounded_only=["prepare_slice_for_replace (depths of the two open ends in the wrapped slice): trusted contract, evaluated natively; open slices whose spine nodes are not valid by themselves (partial nodes) are outside the proved statement", "remove_range", "canonical mark order at every node", "ReplaceAroundStep: validity of the slice after the gap content is dropped in", "mark / attribute / node-mark step apply bodies", "Step.from_json decoding"]),
     "C02": _hybrid("C02", "c02", ["contracts.model_replace"],
                    "the size / index algebra replace and slice are built from: Fragment.__init__ (size == sum of child sizes, class invariant proved at every construction), find_index (offset == prefix sum, "
@@ -87,7 +87,7 @@ PROPS.update({
                    "deep validity of the rebuild (add_node, add_range, replace_two_way, replace_outer, Node.replace: a deeply valid document stays deeply valid, including the three-way rebuild around open slices, relative to the trusted prepare_slice_for_replace contract; see C01).",
                    "that Node.slice / Node.replace are exactly a splice of the flat token sequence (token oracle for every range of small documents and a pool of foreign slices); replace_outer / replace_two_way / replace_three_way / close / join recursion is outside the proved set.",
                    assumptions=("A1", "A4", "A5", "A6", "A7", "A9", "A10", "Z3", "PYVC"), min_obligations=750,
-                   shards={"add_range": 16, "replace_outer": 8, "replace_two_way": 2, "Fragment.cut": 8, "Fragment.append": 4, "replace_three_way": 8},
+                   shards={"add_range": 16, "add_node": 4, "replace_outer": 8, "replace_two_way": 2, "Fragment.cut": 8, "Fragment.append": 4, "replace_three_way": 8},
                    bounded_only=["token-level splice semantics of Node.replace / Node.slice", "Fragment.from_array (text merging); token content of Fragment.cut / append", "schema validity of the result"]),
     "C03": _hybrid("C03", "c03", ["contracts.transform_steps", "contracts.model_replace"],
                    "the size clause for deletions: a ReplaceStep with an empty slice that applies shrinks the document by exactly to - from, which is what its map [from, to - from, 0] says "
@@ -97,7 +97,7 @@ PROPS.update({
                    "the shape of every step's map (ReplaceStep / ReplaceAroundStep.get_map ranges from the step's fields, empty map for attribute / mark steps), "
                    "Transform.add_step records exactly one map per step, StepMap._map / for_each obey the documented rule (from C08).",
                    "faithfulness of the map to the document change (size delta, tokens at mapped positions) for every applied step of histories and primitive steps; it rests on the splice behaviour of replace (C02).",
-                   min_obligations=700, shards={"StepMap._map": 8, "add_range": 16, "replace_outer": 8, "ResolvedPos.resolve": 4}, bounded_only=["token-level faithfulness of the map", "size clause for open slices, the three-way branch and replace-around steps"]),
+                   min_obligations=700, shards={"StepMap._map": 8, "add_range": 16, "add_node": 4, "replace_outer": 8, "ResolvedPos.resolve": 4}, bounded_only=["token-level faithfulness of the map", "size clause for open slices, the three-way branch and replace-around steps"]),
     "C04": _hybrid("C04", "c04", ["contracts.transform_steps"],
                    "Transform.add_step / maybe_step / step keep steps, docs and maps aligned one-to-one, a rejected step changes nothing (frame), step() raises only TransformError; "
                    "ReplaceStep.invert's fields; lemmas: the inverted replace / replace-around step's map maps every position like the inverted map (complete unrolling); mark-step inverses swap add/remove.",
